@@ -13,6 +13,7 @@ import (
 	"fmt"
 	"os"
 	"runtime/pprof"
+	"strconv"
 
 	"verif/mon"
 	"verif/ref/reftx"
@@ -58,7 +59,7 @@ func famPrims(k *mon.Case) {
 		}
 	}
 	// var-bytes / var-string with claimed lengths around the caller's maximum
-	max := uint32([]int{0, 1, 520, 36000, 1 << 20}[r.Intn(5)])
+	max := uint32([]int{0, 1, 520, 36000, 65536, 1 << 20}[r.Intn(5+r.Intn(6)/5)])
 	claim := uint64(max)
 	switch r.Intn(5) {
 	case 0:
@@ -127,19 +128,34 @@ func main() {
 		c.Note("transactions without inputs have no round trip in the BIP144 decoding mode (an input count of zero is the segwit marker): they are " +
 			"only exercised in the original format")
 
-		// --- calibration of the oracles (runs first in every build) ---
-		c.Family("calibrate.reftx", int64(len(blockFiles)), famCalibrateTx)
+		// thorough-tier counts can be scaled down (percent) when the machine is shared: developer aid,
+		// the evidence notes it. Counts never depend on time.
+		pct := int64(100)
+		if v := os.Getenv("VERIF_C08_THOROUGH_PCT"); v != "" && c.Thorough() {
+			if p, err := strconv.Atoi(v); err == nil && p > 0 && p <= 100 {
+				pct = int64(p)
+				c.Note(fmt.Sprintf("thorough-tier case counts scaled to %d%% by VERIF_C08_THOROUGH_PCT", p))
+			}
+		}
+		n := func(quick, thorough int64) int64 { return c.N(quick, thorough*pct/100) }
+
+		// --- calibration of the oracles (runs first; the transaction / block reference is calibrated in the
+		// non-race build only: the same oracle code serves both builds and parsing megabyte blocks under the
+		// race detector costs more than the whole hostile workload) ---
+		if !mon.RaceEnabled {
+			c.Family("calibrate.reftx", int64(len(blockFiles)), famCalibrateTx)
+		}
 		c.Family("calibrate.refwire", int64(len(calibrationVectors())), famCalibrateWire)
 
 		scale := int64(1)
 		if mon.RaceEnabled {
-			scale = c.N(8, 20) // the race build only repeats the hostile families, with smaller counts
+			scale = c.N(10, 20) // the race build only repeats the hostile families, with smaller counts
 		}
 
 		if !mon.RaceEnabled {
 			// every (message type, version, encoding) combination, several values each
 			combos := int64(len(allCmds) * len(pvers) * 2)
-			c.Family("msg.roundtrip", combos*c.N(4, 100), func(k *mon.Case) {
+			c.Family("msg.roundtrip", combos*n(6, 240), func(k *mon.Case) {
 				r := k.Rand
 				i := k.Index % combos
 				cmd := allCmds[i%int64(len(allCmds))]
@@ -154,13 +170,13 @@ func main() {
 				k.Desc(map[string]any{"cmd": cmd, "pver": pver, "enc": encName(enc), "size_class": sz, "value": trunc(dump(msg), 4000)})
 				checkMsgRoundTrip(k, cmd, msg, sp, pver, enc, nets[r.Intn(len(nets))])
 			})
-			c.Family("tx.roundtrip", c.N(15000, 400000), func(k *mon.Case) {
+			c.Family("tx.roundtrip", n(30000, 1800000), func(k *mon.Case) {
 				r := k.Rand
 				t := randTx(r, txShape{allowNoInputs: true, witness: 1, sz: pickSize(r), heavy: c.Thorough()})
 				k.Desc(map[string]any{"tx": hexN(t.Bytes(true), 3000)})
 				checkTx(k, t)
 			})
-			c.Family("block.roundtrip", c.N(3000, 75000), func(k *mon.Case) {
+			c.Family("block.roundtrip", n(6000, 360000), func(k *mon.Case) {
 				r := k.Rand
 				ntx := r.Intn(6)
 				switch r.Intn(30) {
@@ -173,13 +189,13 @@ func main() {
 				k.Desc(map[string]any{"block": hexN(bl.Bytes(true), 3000)})
 				checkBlock(k, bl)
 			})
-			c.Family("prims", c.N(20000, 500000), famPrims)
+			c.Family("prims", n(40000, 2400000), famPrims)
 		}
 
-		c.Family("hostile.mutate", c.N(40000, 1000000)/scale, famHostileMutate)
-		c.Family("hostile.trunc", c.N(1000, 25000)/scale, famHostileTrunc)
-		c.Family("hostile.random", c.N(12000, 300000)/scale, famHostileRandom)
-		c.Family("hostile.frame", c.N(12000, 300000)/scale, famHostileFrame)
+		c.Family("hostile.mutate", n(80000, 4800000)/scale, famHostileMutate)
+		c.Family("hostile.trunc", n(2000, 120000)/scale, famHostileTrunc)
+		c.Family("hostile.random", n(25000, 1500000)/scale, famHostileRandom)
+		c.Family("hostile.frame", n(25000, 1500000)/scale, famHostileFrame)
 
 		if !mon.RaceEnabled {
 			for _, cmd := range allCmds {
@@ -190,8 +206,10 @@ func main() {
 			c.Require("btcutil.block.frombytes", 500)
 			c.Require("prims.cases", 1000)
 		}
-		c.Require("calibrate.blocks", 5)
-		c.Require("calibrate.witness_commitments", 2)
+		if !mon.RaceEnabled {
+			c.Require("calibrate.blocks", 5)
+			c.Require("calibrate.witness_commitments", 2)
+		}
 		c.Require("calibrate.vectors", 10)
 		c.Require("hostile.calls", 10000)
 		c.Require("identity.canonical", 500)
